@@ -33,6 +33,16 @@ def _shapes(tier):
                             if ks == 2 and M >= (3 if tier == 'quick' else 4):
                                 continue
                             out.append((M, tuple(lens), opening, pickup, final, ks, 0))
+    # the pickup (or the first measure) starts with a chord / a rest / a decorated note in every spine: what opens measure 1
+    # when the first fragment is only the header and the pickup
+    for M in (1, 2):
+        for lens in ((1,), (1, 1), (0, 1)):
+            if len(lens) != M:
+                continue
+            for opening in (0, 1):
+                for final in (0, 1):
+                    for fk, ks in ((1, 1), (1, 2), (2, 1), (3, 1)):
+                        out.append((M, tuple(lens), opening, 1, final, ks, 0, fk))
     return out
 
 
@@ -90,8 +100,8 @@ def _body(si, mask, sepi):
     ref_doc, ref_errs = kp.loads(joined)
     check(not ref_errs, f'the joined text does not import cleanly: {ref_errs}')
     # the first fragment alone must already contain a measure, otherwise measures_count() raises (documented contract)
-    first_doc, _ = kp.loads(texts[0])
-    if not first_doc.measure_start_tree_stages:
+    # (decided by the text-level model, not by asking kernpy: a barline line or a note / rest / chord line opens a measure)
+    if not any(ln.kind in ('bar', 'data') for ln in groups[0]):
         try:
             kp.concat(texts) if sep is None else kp.concat(texts, separator=sep)
         except Exception:
